@@ -4,8 +4,9 @@
 (*                                                                           *)
 (* Statement level: `added` (every operation ever stored, in the order it    *)
 (* was first stored) and `banned` (operations a filter rejected in some      *)
-(* call). R1..R6 below say, relationally, which results a call may return    *)
-(* (the statement does not fix WHICH `limit` operations are handed out).     *)
+(* COMPLETED call). R1..R6 below say, relationally, which results a call may *)
+(* return (the statement does not fix WHICH `limit` operations are handed    *)
+(* out).                                                                     *)
 (* Implementation level: Scan transcribes the loop of OperationHashes over   *)
 (* the ordered index (insertion order, minus the operations the pool took    *)
 (* out of the index = `ibanned`): filter, de-duplication of facts through    *)
@@ -19,10 +20,35 @@
 (* small constants). Counterexamples of the pinned transcription are         *)
 (* candidates that are replayed on the real pool.                            *)
 (*                                                                           *)
+(* Concurrency (NCallers > 0). The pool has no lock around OperationHashes:  *)
+(* a call is (1) Begin = the iterator over the ordered index is opened - a   *)
+(* leveldb iterator reads a snapshot taken at that moment, the whole scan    *)
+(* (filter callbacks included) is a function of that snapshot -, (2) End =   *)
+(* removeNewOperationOrdereds + setRemoveNewOperations take what the scan    *)
+(* put on the removal list out of the index and the call returns. Calls of   *)
+(* several callers (1..NCallers) and SetOperation interleave between the     *)
+(* two steps. setRemoveNewOperations reads, per hash of the list, the        *)
+(* operation's keys record and writes ONE batch; a hash whose record is      *)
+(* gone (another call removed it in between) is                              *)
+(*   Removal = "skip":  skipped, the others are removed (the code);          *)
+(*   Removal = "abort": the reason to give up - nothing of the list is       *)
+(*     removed (a candidate the forced schedules must tell from "skip").     *)
+(* The statement speaks about one caller; for overlapping calls R0..R6 are   *)
+(* judged per call against facts that do not depend on a linearization       *)
+(* order: the result of a call has no duplicates (R2), its entries are       *)
+(* stored and pass ITS filter (R3), no entry was rejected by the filter of a *)
+(* call that RETURNED before this call STARTED (R6, `bb`), and with room     *)
+(* left an entry is not older than an operation of its fact that was stored  *)
+(* before the call started and that no completed-before or overlapping call  *)
+(* may have rejected (R4c).                                                  *)
+(*                                                                           *)
 (* Binding: the input sequences (hist) of this module - every one of a       *)
-(* small instance (…_enum cfg, -dump) and seeded -simulate walks of a larger *)
-(* one - are run on a real TempPool by harness c22, which logs what the real *)
-(* calls returned; PoolOpsTrace.tla validates that log against R0..R6.       *)
+(* small instance (..._enum / ..._conc_enum cfg, -dump) and seeded -simulate *)
+(* walks of larger ones - are run on a real TempPool by harness c22 (Begin / *)
+(* End steps are forced through the caller-supplied filter: it parks the     *)
+(* caller at its first callback, i.e. right after the snapshot), which logs  *)
+(* what the real calls returned; PoolOpsTrace.tla validates that log         *)
+(* against R0..R6.                                                           *)
 EXTENDS Integers, FiniteSets, Sequences, TLC, Json
 
 CONSTANTS Fact,      \* model facts (strings)
@@ -33,22 +59,30 @@ CONSTANTS Fact,      \* model facts (strings)
           Limits,    \* limits used by the calls
           MaxRej,    \* a filter rejects at most this many (stored) operations
           Impl,      \* "pinned" | "fixed"
-          Sym        \* TRUE: symmetry reduction - the first stored operation is a fixed one
+          Sym,       \* TRUE: symmetry reduction - the first stored operation is a fixed one,
+                     \*       caller k+1 starts a call only while callers 1..k are in a call
+          NCallers,  \* 0: calls are atomic (one caller); k > 0: callers 1..k, calls = Begin / End steps
+          Removal,   \* "skip" | "abort": a hash of the removal list whose record is already gone
+          Emit       \* which states carry their input sequence in `step`: "all" | "terminal" (no step
+                     \* enabled any more: the maximal sequences) | "none" (ToJson costs milliseconds)
 
 Op == [f : Fact, s : Signer]
 Id(o) == o.f \o "." \o ToString(o.s)
+Callers == 1..NCallers
 
 VARIABLES added,    \* Seq(Op): insertion order
-          banned,   \* statement level: operations rejected by a filter in some call
+          banned,   \* statement level: operations rejected by the filter of a call that has returned
           ibanned,  \* implementation level: operations taken out of the ordered index
           nreset, ncalls,
+          run,      \* per caller: the call in flight (Begin done, End not yet)
           last,     \* verdict of R0..R6 on the result of the last call
           hist,     \* the input sequence so far
           step      \* output only: ToJson(hist), what the harness replays
-vars == <<added, banned, ibanned, nreset, ncalls, last, hist, step>>
+vars == <<added, banned, ibanned, nreset, ncalls, run, last, hist, step>>
 
 Range(s) == {s[i] : i \in 1..Len(s)}
 Pos(o) == CHOOSE i \in 1..Len(added) : added[i] = o       \* o \in Range(added)
+PosIn(a, o) == CHOOSE i \in 1..Len(a) : a[i] = o          \* o \in Range(a)
 RemoveAt(s, i) == SubSeq(s, 1, i - 1) \o SubSeq(s, i + 1, Len(s))
 
 --------------------------------------------------------------------------------
@@ -69,6 +103,17 @@ R6(ret, b) == \A i \in 1..Len(ret) : ret[i] \notin b                \* filtered-
 (* operation is handed out                                                              *)
 R7(ret, L, a, b, Rej) ==
   Len(ret) < L => \A f \in Fact : Eligible(a, b, Rej, f) # {} => \E i \in 1..Len(ret) : ret[i].f = f
+
+(* R4 for a call that overlaps other calls / stores: a = added when the call returns,   *)
+(* n = Len(added) when it started, b = rejected by calls that returned before it        *)
+(* started or that overlapping calls may reject. The entry may itself be newer than     *)
+(* everything stored before the start; it must not be OLDER than the most recent        *)
+(* operation of its fact that was certainly there and certainly eligible. For a call    *)
+(* that overlaps nothing this is R4 (given R3 and R6).                                  *)
+R4c(ret, L, a, n, b, Rej) ==
+  Len(ret) < L => \A i \in 1..Len(ret) :
+                     LET E == Eligible(SubSeq(a, 1, n), b, Rej, ret[i].f)
+                     IN (E # {} /\ ret[i] \in Range(a)) => PosIn(a, ret[i]) >= PosIn(a, Latest(a, E))
 
 --------------------------------------------------------------------------------
 (* The code: one pass over the ordered index *)
@@ -100,14 +145,40 @@ ScanFrom(idx, i, s, L, Rej) ==
   ELSE ScanFrom(idx, i + 1, ScanStep(s, idx[i], L, Rej), L, Rej)
 Scan(L, Rej) == ScanFrom(Index, 1, ScanInit, L, Rej)
 
+(* setRemoveNewOperations(list): the index after the removal step of a call *)
+Removed(ib, rm) ==
+  IF Removal = "abort" /\ Range(rm) \cap ib # {} THEN ib   \* a record is gone: nothing is written
+  ELSE ib \cup Range(rm)                                    \* gone records skipped, one batch
+
 --------------------------------------------------------------------------------
 NoVerdict == [r0 |-> TRUE, r1 |-> TRUE, r2o |-> TRUE, r2f |-> TRUE, r3 |-> TRUE, r4 |-> TRUE, r6 |-> TRUE, r7 |-> TRUE]
 
+(* a caller: idle, or the call it is in: limit, filter, what the scan of the snapshot   *)
+(* computed, and what the statement needs about the moment the call started: bb =       *)
+(* `banned` then, ab = Len(added) then, ov = what the filters of overlapping calls reject *)
+Idle == [on |-> FALSE, l |-> 0, rej |-> {}, s |-> ScanInit, bb |-> {}, ab |-> 0, ov |-> {}]
+InFlight == {c \in Callers : run[c].on}
+Opened(c, L, Rej, s) ==
+  [d \in Callers |->
+     IF d = c THEN [on |-> TRUE, l |-> L, rej |-> Rej, s |-> s, bb |-> banned, ab |-> Len(added),
+                    ov |-> UNION {run[e].rej : e \in InFlight}]
+     ELSE IF run[d].on THEN [run[d] EXCEPT !.ov = @ \cup Rej]
+     ELSE run[d]]
+
+(* no step is enabled in a state with these values *)
+Terminal(a, ib, nr, nc, rn) ==
+  /\ \A c \in Callers : ~rn[c].on
+  /\ Len(a) = MaxAdd /\ nr = MaxReSet
+  /\ nc = MaxCalls \/ (NCallers > 0 /\ \A i \in 1..Len(a) : a[i] \in ib)
+Out(h, a, ib, nr, nc, rn) ==
+  IF Emit = "all" \/ (Emit = "terminal" /\ Terminal(a, ib, nr, nc, rn)) THEN ToJson(h) ELSE ""
+
 Init == /\ added = <<>> /\ banned = {} /\ ibanned = {}
         /\ nreset = 0 /\ ncalls = 0
+        /\ run = [c \in Callers |-> Idle]
         /\ last = NoVerdict
         /\ hist = <<>>
-        /\ step = ToJson(<<>>)
+        /\ step = ""
 
 (* SetOperation: stores a new operation at the end; a stored one: returns false, no change *)
 Set(o) ==
@@ -116,12 +187,13 @@ Set(o) ==
           /\ (added = <<>> /\ Sym) => o = CHOOSE x \in Op : TRUE
           /\ added' = Append(added, o) /\ nreset' = nreset
   /\ hist' = Append(hist, [a |-> "Set", op |-> Id(o), f |-> o.f, ret |-> o \notin Range(added)])
-  /\ step' = ToJson(hist')
+  /\ step' = Out(hist', added', ibanned, nreset', ncalls, run)
   /\ last' = NoVerdict
-  /\ UNCHANGED <<banned, ibanned, ncalls>>
+  /\ UNCHANGED <<banned, ibanned, ncalls, run>>
 
-(* OperationHashes(limit L, filter rejecting Rej) as the code computes it *)
+(* OperationHashes(limit L, filter rejecting Rej) as the code computes it, one caller *)
 Call(L, Rej) ==
+  /\ NCallers = 0
   /\ ncalls < MaxCalls
   /\ ncalls' = ncalls + 1
   /\ LET s == Scan(L, Rej) IN
@@ -133,18 +205,55 @@ Call(L, Rej) ==
        /\ ibanned' = IF s.panic THEN ibanned ELSE ibanned \cup Range(s.rm)
        /\ hist' = Append(hist, [a |-> "Call", l |-> L, rej |-> {Id(o) : o \in Rej},
                                 model |-> IF s.panic THEN <<"panic">> ELSE [i \in 1..Len(s.ops) |-> Id(s.ops[i])]])
-  /\ step' = ToJson(hist')
-  /\ UNCHANGED <<added, nreset>>
+  /\ step' = Out(hist', added, ibanned', nreset, ncalls', run)
+  /\ UNCHANGED <<added, nreset, run>>
+
+(* caller c starts OperationHashes(L, filter rejecting Rej): the iterator's snapshot. A  *)
+(* call on an empty index has no callback and no removal step: those are left to the     *)
+(* one-caller families.                                                                  *)
+Begin(c, L, Rej) ==
+  /\ ~run[c].on
+  /\ ncalls < MaxCalls
+  /\ Index # <<>>
+  /\ Sym => \A d \in Callers : d < c => run[d].on
+  /\ ncalls' = ncalls + 1
+  /\ run' = Opened(c, L, Rej, Scan(L, Rej))
+  /\ hist' = Append(hist, [a |-> "Begin", c |-> c, l |-> L, rej |-> {Id(o) : o \in Rej}])
+  /\ step' = Out(hist', added, ibanned, nreset, ncalls', run')
+  /\ last' = NoVerdict
+  /\ UNCHANGED <<added, banned, ibanned, nreset>>
+
+(* caller c's call takes its removal list out of the index and returns *)
+End(c) ==
+  /\ run[c].on
+  /\ LET r == run[c]
+         s == r.s
+     IN /\ last' = IF s.panic THEN [NoVerdict EXCEPT !.r0 = FALSE]
+                   ELSE [r0 |-> TRUE, r1 |-> R1(s.ops, r.l), r2o |-> R2ops(s.ops), r2f |-> R2facts(s.ops),
+                         r3 |-> R3(s.ops, added, r.rej),
+                         r4 |-> R4c(s.ops, r.l, added, r.ab, r.bb \cup r.ov, r.rej),
+                         r6 |-> R6(s.ops, r.bb), r7 |-> TRUE]
+        /\ banned' = IF s.panic THEN banned ELSE banned \cup s.rejected
+        /\ ibanned' = IF s.panic THEN ibanned ELSE Removed(ibanned, s.rm)
+        /\ hist' = Append(hist, [a |-> "End", c |-> c,
+                                 model |-> IF s.panic THEN <<"panic">> ELSE [i \in 1..Len(s.ops) |-> Id(s.ops[i])]])
+  /\ run' = [run EXCEPT ![c] = Idle]
+  /\ step' = Out(hist', added, ibanned', nreset, ncalls, run')
+  /\ UNCHANGED <<added, nreset, ncalls>>
 
 Next == \/ \E o \in Op : Set(o)
         \/ \E L \in Limits : \E Rej \in SUBSET Range(added) : Cardinality(Rej) <= MaxRej /\ Call(L, Rej)
+        \/ \E c \in Callers : \E L \in Limits : \E Rej \in SUBSET Range(Index) :
+              Cardinality(Rej) <= MaxRej /\ Begin(c, L, Rej)
+        \/ \E c \in Callers : End(c)
 Spec == Init /\ [][Next]_vars
 
-View == <<added, banned, ibanned, nreset, ncalls, last>>
+View == <<added, banned, ibanned, nreset, ncalls, run, last>>
 --------------------------------------------------------------------------------
 TypeOK == /\ Range(added) \subseteq Op /\ Len(added) <= MaxAdd
           /\ banned \subseteq Range(added) /\ ibanned \subseteq Range(added)
-          /\ banned \subseteq ibanned            \* what a filter rejected left the index
+          /\ \A c \in Callers : run[c].on => run[c].bb \subseteq banned /\ run[c].ab <= Len(added)
+Gone == banned \subseteq ibanned  \* what the filter of a returned call rejected left the index
 R0ok == last.r0          \* the call returns
 R1ok == last.r1
 R2ok == last.r2o /\ last.r2f
